@@ -181,4 +181,14 @@ theorem skeleton_matches :
 example : (run true (init 3) [0, 1, 2, 0, 1, 2, 2, 1, 0, 0, 1, 2]).threads =
     [.finished 2, .finished 2, .finished 2] := by decide
 
+/-- The instrumented template system that cmd/goflow2 wires into the auto pipe passes every operation to the wrapped
+    store in ONE call (regenerated from metrics/templates.go): an announcement is one atomic `AddTemplate` of the store,
+    never a remove followed by an add — between any two steps of a worker another worker finds the old or the new
+    template (what the `tplatomic` probe of the harness checks on the real code). -/
+theorem instrumented_store_atomic :
+    Goflow.Generated.skPromAdd = ["s.wrapped.AddTemplate(version, obsDomainId, templateId, template)"] ∧
+    Goflow.Generated.skPromGet = ["s.wrapped.GetTemplate(version, obsDomainId, templateId)"] ∧
+    Goflow.Generated.skPromRemove = ["s.wrapped.RemoveTemplate(version, obsDomainId, templateId)"] := by
+  decide +kernel
+
 end Goflow.C16
